@@ -1,4 +1,8 @@
 """C01, C05, C07: lattice replay of MC_Gauss behaviours on the four simulator configurations."""
+import json
+import math
+from fractions import Fraction
+
 import numpy as np
 
 from . import common, lattice
@@ -80,6 +84,114 @@ def unexpected(chk, cfg, cutoff, it, r, nprefix, prop):
                                          "error": r["err"], "msg": r["msg"]})
 
 
+# ---- cat states: linear combinations of Gaussians with symbolic weights (MC_Cat.tla) ------------------------------------
+CAT_PARITIES = [0.0, 1.0, 0.5, 0.3, 1.5]
+_CATCFG = {}
+
+
+def cat_oracle(item, p):
+    """first and second moments of the cat-state program from TLC's exact component means / covariance and the weights"""
+    import cmath
+    from fractions import Fraction
+    fr = lambda x: float(Fraction(int(x[0]), int(x[1])))
+    a = fr(item["amp"])
+    c = cmath.exp(-2 * a * a - 1j * math.pi * p)
+    norm = 1.0 / (2 * (1 + math.exp(-2 * a * a) * math.cos(math.pi * p)))
+    w = [norm, norm, norm * c, norm * c.conjugate()]
+    mus = [np.array([fr(x) for x in item["re"][k]]) + 1j * np.array([fr(x) for x in item["im"][k]]) for k in range(4)]
+    V = np.array([[fr(x) for x in r] for r in item["V"]])
+    mean = sum(wk * mk for wk, mk in zip(w, mus))
+    m2 = sum(wk * (V + np.outer(mk, mk)) for wk, mk in zip(w, mus))
+    cov = m2 - np.outer(mean, mean)
+    return np.real(mean), np.real(cov), float(max(np.max(np.abs(np.imag(mean))), np.max(np.abs(np.imag(cov)))))
+
+
+def _cat_run(arg):
+    import strawberryfields as sf
+    from strawberryfields import ops
+    from . import sfx
+    item, p, cfg, cutoff = arg
+    try:
+        prog = sf.Program(2)
+        cat = item["hist"][0]
+        with prog.context as q:
+            ops.Catstate(float(sfx.fr(cat["p"][0])), sfx.to_float("angle", cat["p"][1]), p) | q[0]
+            for o in item["hist"][1:]:
+                sfx.mk_op(o) | tuple(q[m] for m in o["modes"])
+        st = sfx.engine(cfg, cutoff).run(prog).state
+        proj = sfx.project_state(st, cfg, cutoff)
+        for k in ("mu_c", "V_c", "weights"):
+            proj.pop(k, None)
+        return {"ok": True, "proj": proj}
+    except Exception as e:  # noqa
+        return {"ok": False, "err": type(e).__name__, "msg": str(e)[:200]}
+
+
+def cat_programs(chk, judge):
+    """generate cat-state programs, run them on the bosonic and Fock simulators, call judge(cfg, item, p, oracle, result)"""
+    depth = 1 if chk.tier == "quick" else 2
+    for (an, ad, cut) in ((1, 2, 14), (1, 1, 22)) if chk.tier != "quick" else ((1, 2, 14),):
+        r = chk.tlc("MC_Cat", constants={"Depth": depth, "ANum": an, "ADen": ad, "EMIT": True}, invariants=["CovPhysical", "Paired", "EmitInv"])
+        items = r.json
+        for cfg, cutoff in (("bosonic", None), ("fock", cut)):
+            sel = items if cfg == "bosonic" or chk.tier != "quick" else items[chk.seed % 2::2]
+            jobs = [(it, p, cfg, cutoff) for it in sel for p in CAT_PARITIES]
+            res = common.pmap(_cat_run, jobs, chunksize=4)
+            for (it, p, _, _), o in zip(jobs, res):
+                chk.traces += 1
+                chk.count(key=("cat", cfg, p, lattice.hist_key(it["hist"])), nontrivial=True)
+                judge(cfg, cutoff, it, p, cat_oracle(it, p), o)
+        chk.sample({"cat_state_program": short(items[len(items) // 2]["hist"][1:]), "amplitude": "%d/%d" % (an, ad), "parities": CAT_PARITIES})
+
+
+def _fockloss_run(arg):
+    import strawberryfields as sf
+    from strawberryfields import ops
+    from . import sfx
+    item, D, pure = arg
+    try:
+        prog = sf.Program(2)
+        with prog.context as q:
+            ops.Fock(item["n0"]) | q[0]
+            ops.Sgate(0.1) | q[1]                      # a spectator, so that the tensor has more than one axis
+            for T in item["T"]:
+                ops.LossChannel(float(sfx.fr(T))) | q[0]
+        st = sf.Engine("fock", backend_options={"cutoff_dim": D, "pure": pure}).run(prog).state
+        rho = np.asarray(st.reduced_dm(0))
+        return {"ok": True, "diag": np.real(np.diag(rho)).tolist(), "trace0": float(np.real(np.trace(rho)))}
+    except Exception as e:  # noqa
+        return {"ok": False, "err": type(e).__name__, "msg": str(e)[:200]}
+
+
+def fock_loss(chk, clause_prefix):
+    """number states up to the top level of the truncated space under loss: exact binomial thinning (MC_FockLoss.tla)"""
+    D = 5 if chk.tier == "quick" else 7
+    r = chk.tlc("MC_FockLoss", constants={"D": D, "Depth": 2, "EMIT": True}, invariants=["TracePreserved", "MeanScales", "EmitInv"])
+    jobs = [(it, D, pure) for it in r.json for pure in (True, False)]
+    res = common.pmap(_fockloss_run, jobs, chunksize=2)
+    for (it, _, pure), o in zip(jobs, res):
+        chk.traces += 1
+        chk.count(key=("fockloss", it["n0"], json.dumps(it["T"]), pure), nontrivial=bool(it["T"]))
+        f = {"backend": "fock" if pure else "fockmixed", "state": "number", "top_level": it["n0"] == D - 1, "op": "LossChannel"}
+        det = {"program": "Fock(%d) ; %s" % (it["n0"], " ; ".join("LossChannel(%s)" % lattice.fmt_p([t])[1:-1] for t in it["T"])), "cutoff": D}
+        if not o["ok"]:
+            chk.violation("UnexpectedError", dict(f, error=o["err"]), dict(det, msg=o["msg"]))
+            continue
+        want = [float(Fraction(int(x[0]), int(x[1]))) for x in it["dist"]]
+        # the spectator squeezer loses a little norm by truncation; compare the conditional distribution of mode 0
+        tr = o["trace0"]
+        got = [x / tr for x in o["diag"]]
+        if max(abs(a - b) for a, b in zip(got, want)) > 1e-9:
+            chk.violation(clause_prefix, f, dict(det, got=got, want=want))
+        elif tr < 1 - 1e-6:      # (the spectator's squeezing of 0.1 costs < 1e-9 of norm at these cutoffs)
+            chk.violation("TraceLostWithoutTruncation", f, dict(det, trace=tr))
+    chk.sample({"number_state_program": "Fock(n) ; LossChannel(T)...", "cutoff": D, "cases": len(jobs)})
+
+
+def cat_features(cfg, it, p):
+    return {"backend": cfg, "state": "cat", "parity_integer": float(p).is_integer(), "op": it["hist"][-1]["name"] if len(it["hist"]) > 1 else "Catstate"}
+
+
 # ---- C01 ----------------------------------------------------------------------------------------------
 def c01(chk):
     from . import sfx_cmp as sc
@@ -105,6 +217,27 @@ def c01(chk):
                           {"config": cfg, "cutoff": cutoff, "program": short(it["hist"]), "hist": it["hist"], "info": info,
                            "exact": it["st"]})
     run_models(chk, chk.tier, want)
+
+    def judge(cfg, cutoff, it, p, oracle, o):
+        mean, cov, imag = oracle
+        f = cat_features(cfg, it, p)
+        det = {"config": cfg, "cutoff": cutoff, "program": "Catstate(a=%s, p=%s) ; %s" % (lattice.fmt_p([it["amp"]]), p, short(it["hist"][1:]))}
+        if not o["ok"]:
+            chk.violation("UnexpectedError", dict(f, error=o["err"]), dict(det, msg=o["msg"]))
+            return
+        pr = o["proj"]
+        dmu, dV = float(np.max(np.abs(pr["mu"] - mean))), float(np.max(np.abs(pr["V"] - cov)))
+        if cfg == "bosonic":
+            if dmu > 1e-8 or dV > 1e-8:
+                chk.violation("StateMatchesSpec", f, dict(det, info="dmu=%.3g dV=%.3g" % (dmu, dV)))
+        else:
+            delta = max(0.0, 1 - pr["trace"])
+            if delta > 1e-3:
+                chk.inconclusive += 1
+            elif dmu > 5 * delta ** 0.5 + 1e-6 or dV > 2 * pr["D"] * delta ** 0.5 + 1e-6:
+                chk.violation("StateMatchesSpec", f, dict(det, info="dmu=%.3g dV=%.3g delta=%.3g" % (dmu, dV, delta)))
+    cat_programs(chk, judge)
+    fock_loss(chk, "NumberStateUnderLoss")
 
 
 # ---- C05 ----------------------------------------------------------------------------------------------
@@ -214,6 +347,16 @@ def c07(chk):
             if (1 - a["trace"]) > 1e-9 and nb < 1e-9:
                 chk.violation("TraceLostWithoutEnergy", f, {"config": cfg, "program": short(it["hist"]), "trace": a["trace"]})
     run_models(chk, chk.tier, want)
+
+    def judge(cfg, cutoff, it, p, oracle, o):
+        if not o["ok"]:
+            return
+        f = cat_features(cfg, it, p)
+        det = {"config": cfg, "program": "Catstate(a=%s, p=%s) ; %s" % (lattice.fmt_p([it["amp"]]), p, short(it["hist"][1:]))}
+        for clause, val in sc.physical_defects(o["proj"], cfg):
+            chk.violation(clause, f, dict(det, value=val))
+    cat_programs(chk, judge)
+    fock_loss(chk, "TraceLostWithoutTruncation")
     # purity / global uncertainty on the model itself (2-mode instance, exact determinants)
     chk.tlc("MC_Gauss", constants={"N": 2, "Depth": 2 if chk.tier == "quick" else 3, "AlphaId": "q" if chk.tier == "quick" else "d",
                                    "PrefixId": "e2", "KNum": 1, "KDen": 1, "EMIT": False},
